@@ -101,6 +101,9 @@ def canon_value(v, f, d, env, ps):
             td = env[f["ty"]]
             return [canon_typed(x, f["ty"], env, ps) for x in v]
         return [canon_value(x, f, d, env, ps) for x in v]
+    if k == "nest":
+        # the value of a typedef chain
+        return canon_typed(v, f["ty"], env, ps)
     if isinstance(v, float):
         o = O.order_of(f, d)
         return int.from_bytes(struct.pack(o + f["t"], v), "big" if o == ">" else "little")
